@@ -426,7 +426,8 @@ example : commitRelink (some "https://x/{commit}".toList) "^ea82f2d0  1234567".t
 
 def exFields : Fields :=
   { time := ⟨"2021".toList, [.plain "2021".toList]⟩, author := ⟨"Dan Davison".toList, [.plain "Dan Davison".toList]⟩,
-    commit := ⟨"ea82f2d0".toList, [.linked "https://x/ea82f2d0".toList "ea82f2d0".toList]⟩ }
+    commit := ⟨"ea82f2d0".toList, [.linked "https://x/ea82f2d0".toList "ea82f2d0".toList]⟩,
+    relink := commitRelink (some "https://x/{commit}".toList) }
 
 /-- `{commit:<7.7}|{author:^9.3}|{timestamp}` into a pipe with `--hyperlinks`: the commit is plain and abbreviated. -/
 def exItems : List BlameMeta.Item :=
